@@ -16,6 +16,7 @@ BUILD = os.path.join(ROOT, "build")
 COQ = os.path.join(ROOT, "coq")
 MODELRUN = os.path.join(BUILD, "ocaml", "modelrun")
 HARNESS = os.path.join(BUILD, "harness-target", "debug", "fi-harness")
+HARNESS_RELEASE = os.path.join(BUILD, "harness-target", "release", "fi-harness")
 sys.path.insert(0, os.path.join(ROOT, "tools"))
 from registry import PROPS, RUNS, ALLOWED_AXIOMS, TRUSTED_BASE  # noqa: E402
 
@@ -174,7 +175,7 @@ def build_tools():
     r = sh(os.path.join(ROOT, "tools", "build_modelrun.sh"))
     if r.returncode != 0:
         return "model runner build failed: " + strip_noise(r.stdout + r.stderr)[-600:]
-    r = sh(os.path.join(ROOT, "tools", "build_harness.sh"))
+    r = sh(os.path.join(ROOT, "tools", "build_harness.sh") + (" release" if os.environ.get("VERIF_TIER_INTERNAL") == "thorough" else ""))
     if r.returncode != 0:
         return "harness build against /repo failed: " + strip_noise(r.stdout + r.stderr)[-1500:]
     return None
@@ -218,10 +219,15 @@ def one_run(run, tier, seed, bin_hash):
         retag_file(hist)
     nhist = sum(1 for _ in open(hist))
     result = dict(name=name, prim=prim, cfg=cfg, histories=nhist, corpus=ncorpus, explore=stats, flavours={}, mismatches=[], dir=cdir)
-    for fl in run["flavours"]:
+    flavours = list(run["flavours"])
+    if tier == "thorough" and prim != "ringbuf" and os.path.exists(HARNESS_RELEASE):
+        # the same histories on the release build (no debug assertions, wrapping arithmetic)
+        flavours += [f + "@release" for f in run["flavours"]]
+    for fl in flavours:
         obs = os.path.join(cdir, f"obs.{fl}.txt")
+        binary, base_fl = (HARNESS_RELEASE, fl.split("@")[0]) if fl.endswith("@release") else (HARNESS, fl)
         with open(hist) as hf, open(obs, "w") as of:
-            r = subprocess.run([HARNESS, fl], stdin=hf, stdout=of, stderr=subprocess.PIPE, text=True)
+            r = subprocess.run([binary, base_fl], stdin=hf, stdout=of, stderr=subprocess.PIPE, text=True)
         crashed = r.returncode != 0
         r2 = sh([MODELRUN, "compare", hist, obs])
         mm = []
@@ -316,6 +322,7 @@ def main():
     if "--tier" in args:
         tier = args[args.index("--tier") + 1]
     seed = int(os.environ.get("VERIF_SEED", "1"))
+    os.environ["VERIF_TIER_INTERNAL"] = tier
     if prop not in PROPS:
         print(f"unknown property {prop}"); sys.exit(2)
     spec = PROPS[prop]
@@ -346,9 +353,23 @@ def main():
     for p in extra_problems:
         violations.append(dict(kind=p.get("kind", "extra"), detail=p))
 
-    # failing-input search: a monitor evaluated on the implementation's own traces
+    # divergence follow-up: the implementation's state differs from the model's on keys this
+    # property does not compare; explore what this property's monitor says after the divergence
     failing = None
-    if violations and spec.get("monitor"):
+    if not violations and spec.get("monitor") and corr["runs"]:
+        try:
+            import monitors
+            failing = monitors.followup(prop, spec, corr, tier, seed)
+        except Exception as e:
+            failing = None
+            violations.append(dict(kind="search-error", detail=repr(e)))
+        if failing:
+            violations.append(dict(kind="monitor", detail=dict(
+                what="implementation state diverges from the model on observables outside this property's keys; "
+                     "the property's monitor fails on a continuation of a divergent history",
+                history=failing["history"], run=failing["run"], flavour=failing["flavour"])))
+    # failing-input search: a monitor evaluated on the implementation's own traces
+    if violations and failing is None and spec.get("monitor"):
         try:
             import monitors
             failing = monitors.search(prop, spec, corr, tier, seed)
